@@ -72,6 +72,9 @@ def main():
         meta['confirmed']['tests_with_change'] = {'which': tests, 'exit': rct, 'tail': ot.strip().split('\n')[-1][-200:], 'secs': round(time.time() - t0)}
         meta['confirmed']['ok'] = (rc0 == 0 and rc == 0 and rc1 != 0 and rct == 0)
     else:
+        prev = os.path.join(out, 'meta.json')
+        if os.path.exists(prev):
+            meta['confirmed'] = json.load(open(prev)).get('confirmed', {})
         sh(f'git apply {patch}', cwd=wt)
     checks = (a.checks.split(',') if a.checks else [prop])
     for cid in checks:
